@@ -376,7 +376,7 @@ def ops_for(shape):
 
 
 def run(ctx):
-    ctx.rule = "deviation placement: every op history up to the length bound x every position x {0,1,2,3 redundant updates (quick: 0,1,2; zero only where no later op reads update-cached weights)} and x every (node, public property) as the first read after the prefix; a read of every property at every position against an update there (quick: histories up to length 2); a case is non-trivial if it is a distinct (history, placement) that executed"
+    ctx.rule = "deviation placement: every op history up to the length bound x every position x {0,1,2,3 redundant updates (quick: 0,1,2; zero only where no later op reads update-cached weights)} and x every (node, public property) as the first read after the prefix; a read of every property at every position against an update there (histories up to length 2, thorough 3); a case is non-trivial if it is a distinct (history, placement) that executed"
     ctx.assumptions += [
         "histories in which the explicit root.update(now) itself raises a documented guard are ill-formed states and are skipped",
         "properties enumerated by introspection of the node classes; structural views (members, securities, universe, full_name, fixed_income) are C19/C04",
@@ -408,7 +408,7 @@ def run(ctx):
             if kind == "cy":
                 hists = [h for h in hists if len(h) < lidem or lidem <= 2]
             nr = 0
-            for (sp, h, _k, _r), (status, viols, n) in ctx.run(kind, MOD, "idem_case", [(spec, h, 2 if ctx.tier == "quick" else 3, 2 if ctx.tier == "quick" else 99) for h in hists], chunksize=8):
+            for (sp, h, _k, _r), (status, viols, n) in ctx.run(kind, MOD, "idem_case", [(spec, h, 2 if ctx.tier == "quick" else 3, 2 if ctx.tier == "quick" else 3) for h in hists], chunksize=8):
                 ctx.add(states=1 if status == "ok" else 0, transitions=n, traces_validated_against_impl=n, evaluations=n)
                 nr += n
                 if n:
